@@ -44,10 +44,13 @@ UNIT_LINES = [(5, 'Units:Cooling Produced, kW'), (7, 'Units:Annual Heating Deman
 def collect(ctx):
     """-> list of items {'id', 'origin', 'text', ['input', 'json', 'snap']}"""
     rnd = ctx.rng
-    items = []
+    items, seeds = [], []
     for f in sorted(glob.glob(str(fw.VERIF / 'corpus' / 'C10' / '*.json'))):
         d = json.loads(Path(f).read_text())
-        items.append({'id': 'corpus/' + os.path.basename(f), 'origin': 'corpus', 'text': d['text']})
+        if 'text' in d:
+            items.append({'id': 'corpus/' + os.path.basename(f), 'origin': 'corpus', 'text': d['text']})
+        else:
+            seeds.append(('corpus/' + os.path.basename(f), d['input']))
     stored = sorted(glob.glob(str(fw.REPO / 'tests' / '*.out')) + glob.glob(str(fw.REPO / 'tests' / 'examples' / '*.out')))
     for f in stored:
         t = Path(f).read_text(encoding='utf-8', errors='replace')
@@ -65,6 +68,9 @@ def collect(ctx):
     for n, t in configs.example_texts(ctx, slow=not ctx.quick):
         cfgs.append(t)
         names.append('example/' + n)
+    for n, t in seeds:
+        cfgs.append(t)
+        names.append(n)
     res = runner.run_many(ctx, cfgs, want_json=True)
     ok = 0
     for n, t, r in zip(names, cfgs, res):
@@ -234,8 +240,10 @@ def full_term(it, res, with_csv=True):
 
 def kernel_codes(ctx, name, terms):
     """evaluate each term (list nat) in the kernel -> list of lists of ints"""
-    out = []
-    for k, t in enumerate(terms):
+    from concurrent.futures import ThreadPoolExecutor
+
+    def one(kt):
+        k, t = kt
         p = ctx.scratch / f'detail_{name}_{k}.v'
         p.write_text(fw.HEADER + ''.join(f'From Verif Require Import {r}.\n' for r in ['Base.Flat'] + REQ)
                      + f'Open Scope string_scope.\nEval vm_compute in (let t := {TABLES} in {t}).\n')
@@ -243,20 +251,25 @@ def kernel_codes(ctx, name, terms):
         if rc != 0:
             raise RuntimeError(f'coqc failed on {p.name}: {(o + e)[-800:]}')
         m = re.search(r'=\s*\[(.*?)\]\s*:', ' '.join(o.split()))
-        out.append([int(x) for x in re.findall(r'\d+', m.group(1).replace('%nat', ''))] if m else [-1])
-    return out
+        return [int(x) for x in re.findall(r'\d+', m.group(1).replace('%nat', ''))] if m else [-1]
+
+    with ThreadPoolExecutor(max_workers=16) as ex:
+        return list(ex.map(one, enumerate(terms)))
 
 
 def run_kernel(ctx, items, results):
-    terms = [full_term(it, r, with_csv=(i % 3 == 0 or it['origin'] == 'corpus')) for i, (it, r) in enumerate(zip(items, results))]
+    """model vs client inside Coq -> ({item index: component codes}, failing item indices, evaluated indices)"""
+    # quick tier: every corpus / stored report, every second run and synthetic report (the tokenisation oracle sees all)
+    sel = [i for i, it in enumerate(items) if not ctx.quick or it['origin'] in ('corpus', 'stored') or i % 2 == 0]
+    terms = [full_term(items[i], results[i], with_csv=(k % 3 == 0 or items[i]['origin'] == 'corpus')) for k, i in enumerate(sel)]
 
     def body(lo, hi):
         return (f'let t := {TABLES} in let l := [\n' + ';\n'.join(terms[lo:hi])
                 + '] in (List.length l, mismatches (fun r : list nat => match r with [] => true | _ => false end) 0 l)')
 
     failing = fw.kernel_eval(ctx, 'reports', ['Base.Flat'] + REQ, body, len(terms), shard=6, open_scope='string_scope')
-    codes = kernel_codes(ctx, 'r', [terms[i] for i in failing[:40]])
-    return dict(zip(failing, codes)), failing
+    codes = kernel_codes(ctx, 'r', [terms[k] for k in failing[:24]])
+    return {sel[k]: c for k, c in zip(failing, codes)}, [sel[k] for k in failing], sel
 
 
 # ------------------------------------------------------------------------------------------ the check
@@ -303,8 +316,8 @@ def correspondence(ctx, proofs_ok=True):
     for it in items[:2]:
         ctx.sample('reports', {'id': it['id'], 'chars': len(it['text'])})
     # model vs client, inside Coq
-    codes, failing = run_kernel(ctx, items, results)
-    ctx.count('model-vs-client', evaluations=len(items) * (len(fields) + 8))
+    codes, failing, sel = run_kernel(ctx, items, results)
+    ctx.count('model-vs-client', evaluations=len(sel) * (len(fields) + 8), reports=len(sel))
     for i in failing:
         it = items[i]
         for c in codes.get(i, [-1]):
